@@ -67,7 +67,15 @@ def gen_cases(rng, tier):
             if form == "neg" and data:
                 j = rng.randrange(len(data))
                 data[j] = [data[j][0], -rng.randint(1, 3)]
-            cases.append({"kind": "construct", "form": form, "data": data})
+            c = {"kind": "construct", "form": form, "data": data,
+                 "container": rng.choice(["list", "list", "tuple", "generator", "iterator", "reversed", "view", "counter", "set"])}
+            if rng.random() < 0.15:
+                # bare outcomes given as a range object (ascending, descending, with a stride, empty)
+                start, step = rng.randint(-4, 6), rng.choice([1, -1, 2, -2, -3])
+                stop = start + step * rng.randint(0, 6)
+                c = {"kind": "construct", "form": "bare", "container": "range", "range": [start, stop, step],
+                     "data": [[gens.q(v), 1] for v in range(start, stop, step)]}
+            cases.append(c)
         elif r == 6:
             cases.append({"kind": "hrange", "n": rng.randint(-7, 9)})
         else:
@@ -104,14 +112,45 @@ def impl_run(case):
         if k == "construct":
             form = case["form"]
             data = [(gens.py_outcome(o), c) for o, c in case["data"]]
+            cont = case.get("container", "list")
+
+            def deliver(seq):
+                seq = list(seq)
+                if cont == "tuple":
+                    return tuple(seq)
+                if cont == "generator":
+                    return (x for x in seq)
+                if cont == "iterator":
+                    return iter(seq)
+                if cont == "reversed":
+                    return reversed(seq)
+                return seq
             if form == "mapping":
-                h = H(dict(data))
+                d = dict(data)
+                if cont == "view":
+                    h = H(d.items())
+                elif cont == "counter":
+                    import collections
+                    h = H(collections.OrderedDict(data))
+                else:
+                    h = H(d)
             elif form == "bare":
-                h = H([o for o, _ in data])
+                bare = [o for o, _ in data]
+                if cont == "range":
+                    h = H(range(*case["range"]))
+                elif cont == "counter":
+                    import collections
+                    h = H(collections.Counter(bare))
+                elif cont == "set" and len(set(bare)) == len(bare):
+                    h = H(frozenset(bare))
+                elif cont == "view":
+                    h = H(dict.fromkeys(bare).keys()) if len(set(bare)) == len(bare) else H(bare)
+                else:
+                    h = H(deliver(bare))
             elif form == "H(h)":
-                h = H(H(data))
+                h = H(H(deliver(data)))
             else:
-                h = H(data)
+                h = H(deliver(data))
             return {"ok": hist_items(h), "total": h.total, "len": len(h)}
         if k == "hrange":
             h = H(case["n"])
